@@ -188,12 +188,32 @@ def toBytes (r : Req) : Except PyExc Bytes :=
     | .error e => .error e
     | .ok status => .ok (status ++ [13, 10] ++ latin1Replace (fieldsToStr r.fields) ++ [13, 10])
 
+/-- text after the last `@` (the whole text when there is none): `authority.rpartition('@')[2]` -/
+def afterLastAt (s : Str) : Str :=
+  go s s
+where
+  go : Str → Str → Str
+    | [], best => best
+    | c :: t, best => if c = 64 then go t t else go t best
+
+/-- `WebProcessorSession._strip_userinfo` (the repaired code; KNOWN_FINDINGS.txt `fixed:` C16):
+the URL without `user:password@` -/
+def stripUserinfo (url : Str) : Str :=
+  match findSub url (lit "://") with
+  | none => url
+  | some i =>
+    let rest := url.drop (i + 3)
+    let authority := rest.takeWhile (fun c => c != 47 && c != 63 && c != 35)
+    if authority.contains 64 then url.take (i + 3) ++ afterLastAt authority ++ rest.drop authority.length
+    else url
+
 /-- `WebProcessorSession._add_referrer` inside `_populate_common_request`:
-no referrer from an https page to an http URL, and none over one that is already set -/
+no referrer from an https page to an http URL, none over one that is already set, and never the
+user-info of the referring page -/
 def populateReferrer (f : Fields) (parentUrl : Str) (scheme : Str) : Fields :=
   if parentUrl ≠ [] ∧ (getField f (lit "Referer")).getD [] = [] then
     if startsWith parentUrl (lit "https://") && scheme = lit "http" then f
-    else setField f (lit "Referer") parentUrl
+    else setField f (lit "Referer") (stripUserinfo parentUrl)
   else f
 
 /-! ### basic authentication text (concrete instance of the `auth` parameter) -/
@@ -245,6 +265,16 @@ inductive Reply
   | fail (e : PyExc)
   deriving DecidableEq, Repr, Inhabited
 
+/-- verdict of the processor loop for the next request of a running visit -/
+inductive Gate
+  | pass
+  /-- a URL filter or robots.txt refuses: `item_session.skip(); break` -/
+  | refuse
+  /-- consulting robots.txt for the redirect target raised a `REMOTE_ERRORS` exception:
+  `handle_error(...); break` -/
+  | fail (e : PyExc)
+  deriving DecidableEq, Repr, Inhabited
+
 structure Cfg where
   maxRedirects : Nat
   /-- talking to a proxy without tunnel (`connection.proxied and not connection.tunneled`) for http URLs -/
@@ -256,9 +286,10 @@ structure Cfg where
   auth : Str → Str → Str
   /-- the cookie jar's `Cookie` text for the i-th `add_cookie_header` call, made for that URL -/
   jar : Nat → UrlC → Option Str
-  /-- verdict of the caller's URL filters (`_should_fetch_reason` in `_process_loop`) for the next
-  request, given how many requests the visit has sent; `fun _ => true` for a bare WebSession -/
-  accept : Nat → Bool := fun _ => true
+  /-- what the caller (`_process_loop`) decides about the next request, given how many requests the
+  visit has sent: URL filters (`_should_fetch_reason`) and, for a redirect hop, the robots.txt
+  consult; `fun _ => .pass` for a bare WebSession -/
+  gate : Nat → Gate := fun _ => .pass
 
 structure Sess where
   /-- `_original_request` -/
@@ -390,8 +421,10 @@ def run (cfg : Cfg) (adv : List Req → Reply) : Nat → Sess → List Req → N
     match s.cur with
     | none => ⟨sent, last, fu, ar, .done⟩
     | some r =>
-      if !cfg.accept sent.length then ⟨sent, last, fu, ar, .skipped⟩   -- `item_session.skip(); break`
-      else
+      match cfg.gate sent.length with
+      | .refuse => ⟨sent, last, fu, ar, .skipped⟩      -- `item_session.skip(); break`
+      | .fail e => ⟨sent, last, fu, ar, .error e⟩      -- robots.txt of the redirect target: `handle_error; break`
+      | .pass =>
       let r2 := sendPrep cfg s r
       match toBytes r2 with
       | .error e => ⟨sent, last, fu, ar, .error e⟩
@@ -454,13 +487,74 @@ def endOfVisit (last : Nat) : Outcome → CheckIn
   | .fuel => ⟨.error, true⟩
 
 /-- `WebProcessorSession.process()` for one checked-out record: the list of requests sent and
-the table calls made.  `accept` = verdict of all the other URL filters for the first request. -/
+the table calls made.  `accept` = verdict of all the other URL filters for the first request.
+(robots.txt not consulted: no checker, or the answer is in the pool and allows.) -/
 def visit (tries : Nat) (accept : Bool) (cfg : Cfg) (adv : List Req → Reply) (r : Req) (rec : Rec) :
     List Req × List CheckIn :=
   if !(triesFilter tries rec && accept) then ([], [⟨.skipped, true⟩])
   else
     let t := session cfg adv r
     (t.sent, [endOfVisit t.last t.out])
+
+/-! ### robots.txt in front of the visit (`FetchRule.check_initial_web_request`, `RobotsTxtChecker`) -/
+
+/-- how `RobotsTxtChecker.fetch_robots_txt` ends -/
+inductive RobotsEnd
+  | allow        -- parsed and allows, or accepted as blank (ProtocolError, non-200 non-5xx status)
+  | disallow
+  | fail         -- 5xx (`ServerError`) or a network error: propagates, nothing is put in the pool
+  deriving DecidableEq, Repr, Inhabited
+
+/-- classification of the robots.txt fetch from its WebSession run; `bodyDisallows` = what the
+robots parser says about the URL for a 200 body (parameter) -/
+def robotsEnd (t : Trace) (bodyDisallows : Bool) : RobotsEnd :=
+  match t.out with
+  | .error .ProtocolError => .allow
+  | .error _ => .fail
+  | .fuel => .fail
+  | .skipped => .fail
+  | .done =>
+    if 500 ≤ t.last ∧ t.last ≤ 599 then .fail
+    else if t.last = 200 then (if bodyDisallows then .disallow else .allow)
+    else .allow
+
+/-- `Request('{scheme}://{hostname_with_port}/robots.txt')` -/
+def robotsReq (u : UrlC) : Req :=
+  { method := lit "GET", resourcePath := lit "/robots.txt", version := lit "HTTP/1.1", fields := [],
+    url := { u with path := lit "/robots.txt", query := [], username := [], password := [], normUser := [], normPass := [] },
+    username := [], password := [] }
+
+/-- result of one visit with a robots.txt checker -/
+structure VisitR where
+  /-- requests for the URL (and its redirect targets) -/
+  sent : List Req
+  /-- requests of the robots.txt fetch -/
+  robotsSent : List Req
+  checkIns : List CheckIn
+  /-- the pool afterwards: `some allowed` once an answer is cached -/
+  pool : Option Bool
+  deriving Repr, Inhabited
+
+/-- One visit with robots.txt handling.  `pool` = cached answer for the URL's host (`none` = not in
+the pool).  The consult sits BEHIND the filter verdict: a URL that the filters (TriesFilter
+included) refuse causes no robots.txt fetch and is checked in as skipped. -/
+def visitR (tries : Nat) (accept : Bool) (cfg : Cfg) (adv advRobots : List Req → Reply) (bodyDisallows : Bool)
+    (r : Req) (rec : Rec) (pool : Option Bool) : VisitR :=
+  if !(triesFilter tries rec && accept) then ⟨[], [], [⟨.skipped, true⟩], pool⟩
+  else
+    match pool with
+    | some false => ⟨[], [], [⟨.skipped, true⟩], pool⟩
+    | some true =>
+      let t := session cfg adv r
+      ⟨t.sent, [], [endOfVisit t.last t.out], pool⟩
+    | none =>
+      let rt := session { cfg with gate := fun _ => .pass } advRobots (robotsReq r.url)
+      match robotsEnd rt bodyDisallows with
+      | .fail => ⟨[], rt.sent, [⟨.error, true⟩], none⟩           -- `_process_robots`: `handle_error`
+      | .disallow => ⟨[], rt.sent, [⟨.skipped, true⟩], some false⟩
+      | .allow =>
+        let t := session cfg adv r
+        ⟨t.sent, rt.sent, [endOfVisit t.last t.out], some true⟩
 
 /-- `URLTable.check_in` -/
 def applyCheckIn (rec : Rec) (c : CheckIn) : Rec :=
@@ -469,18 +563,29 @@ def applyCheckIn (rec : Rec) (c : CheckIn) : Rec :=
 /-- is the record offered again by `URLItemSource.get_item` (`check_out(todo)` / `check_out(error)`)? -/
 def offered (rec : Rec) : Bool := rec.status = .todo || rec.status = .error
 
-/-- All visits of ONE url against a scripted server whose script is consumed across the
-visits (used by the end-to-end correspondence): per visit the number of requests and the record
-after it.  `rej` lists the global request counts at which the URL filters refused the next
-request of a running visit (logged from the real run); `base` = requests sent by earlier visits. -/
-def crawlOne (tries : Nat) (cfg : Cfg) (r : Req) : Nat → List Reply → Rec → List Nat → Nat → List (Nat × Rec)
-  | 0, _, _, _, _ => []
-  | f + 1, script, rec, rej, base =>
+/-- one visit as the end-to-end trace shows it -/
+structure VisitRow where
+  requests : Nat
+  robotsRequests : Nat
+  record : Rec
+  deriving Repr, Inhabited
+
+/-- All visits of ONE url against scripted servers whose scripts (one for the pages, one for
+`/robots.txt`) are consumed across the visits (used by the end-to-end correspondence).
+`rej` lists the global page-request counts at which the URL filters refused the next request of a
+running visit (logged from the real run); `base` = page requests sent by earlier visits;
+`pool` = `some true` when no robots.txt checker is configured. -/
+def crawlOne (tries : Nat) (cfg : Cfg) (r : Req) (bodyDisallows : Bool) :
+    Nat → List Reply → List Reply → Rec → Option Bool → List Nat → Nat → List VisitRow
+  | 0, _, _, _, _, _, _ => []
+  | f + 1, script, rscript, rec, pool, rej, base =>
     if !offered rec then []
     else
-      let cfg' := { cfg with accept := fun k => !(rej.contains (base + k)) || k == 0 }
-      let (sent, cis) := visit tries true cfg' (scriptAdv script) r rec
-      let rec' := cis.foldl applyCheckIn rec
-      (sent.length, rec') :: crawlOne tries cfg r f (script.drop sent.length) rec' rej (base + sent.length)
+      let cfg' := { cfg with gate := fun k => if rej.contains (base + k) && k != 0 then .refuse else .pass }
+      let v := visitR tries true cfg' (scriptAdv script) (scriptAdv rscript) bodyDisallows r rec pool
+      let rec' := v.checkIns.foldl applyCheckIn rec
+      ⟨v.sent.length, v.robotsSent.length, rec'⟩ ::
+        crawlOne tries cfg r bodyDisallows f (script.drop v.sent.length) (rscript.drop v.robotsSent.length) rec' v.pool rej
+          (base + v.sent.length)
 
 end Wpull.Request
